@@ -138,6 +138,10 @@ pub struct Expect {
     pub or_right_skipped: u64,
     pub stateful_evals: u64,
     pub stateful_exhausted: u64,
+    /// evaluations of leaves that read through typed lookups / stock level filters, and those of
+    /// them where the first value for the key fails the cast while a later duplicate would pass it
+    pub typed_evals: u64,
+    pub typed_first_fails_later_casts: u64,
 }
 
 /// Logical value of a filter tree on an event with `&&` / `||` semantics: the right side is not
@@ -161,6 +165,18 @@ fn feval_in(t: &FTree, leaves: &[FLeaf], ev: &MEvent, snap: &Snap, counts: &mut 
             let a = leaves[*i].eval_model(ev, counts[*i]);
             counts[*i] += 1;
             out.evals.push((*i, snap.clone(), a));
+            let typed = match &leaves[*i] {
+                FLeaf::Pull(k, ty, _) => Some((k.as_str(), *ty)),
+                FLeaf::MinLevel(..) | FLeaf::PathMap(..) => Some((emit::well_known::KEY_LVL, Ty::Level)),
+                _ => None,
+            };
+            if let Some((k, ty)) = typed {
+                out.typed_evals += 1;
+                let mut vals = ev.props.iter().filter(|(pk, _)| pk == k).map(|(_, v)| v.cast(ty).is_some());
+                if vals.next() == Some(false) && vals.any(|c| c) {
+                    out.typed_first_fails_later_casts += 1;
+                }
+            }
             if let FLeaf::Budget(_) = leaves[*i] {
                 out.stateful_evals += 1;
                 if !a {
